@@ -1,5 +1,7 @@
 use crate::framework::{Monitor, Tier};
 
+pub mod c06;
+pub mod c08;
 pub mod c09;
 pub mod c18;
 pub mod safety_uni;
@@ -10,6 +12,8 @@ pub fn by_id(id: &str) -> Option<Box<dyn Monitor>> {
         "C01" => Box::new(safety_uni::SafetyUni { id: "C01", policy: Policy::FP }),
         "C02" => Box::new(safety_uni::SafetyUni { id: "C02", policy: Policy::EDF }),
         "C03" => Box::new(safety_uni::SafetyUni { id: "C03", policy: Policy::FIFO }),
+        "C06" => Box::new(c06::C06),
+        "C08" => Box::new(c08::C08),
         "C09" => Box::new(c09::C09),
         "C18" => Box::new(c18::C18),
         _ => return None,
